@@ -1,7 +1,9 @@
 /* C01 H01.e2e: glue check without any stub: the real -lh5- decoder type (lib/lh5_decoder.c: bit reader, table
  * readers, tree builder, tree walk, ring) is initialised and read through its init/read entry points on a byte
  * stream SERIALISED here from a command list, and the output is compared with the LZ77 expansion of that list
- * over a window that starts filled with spaces.
+ * over the initial window.  harness_init: the real init fills the window with spaces (every cell) and sets the
+ * other fields; harness: the real read path from that state with the window contents generalised to ARBITRARY
+ * (SPLIT_INIT; the reference expansion reads the initial window where a copy reaches before the output start).
  *
  * Stream (two blocks, all three tables of each block in their single-symbol form):
  *   block 1: NLIT commands; temp table n=0 (symbol T1, unused); code table n=0, symbol C1 < 256 -> every command
@@ -34,15 +36,7 @@
 #define CB_CALLS 40
 #include "stream_cb.h"
 #include <string.h>
-#ifdef MEMSET_MODEL
-/* memset model for the one call lha_lh_new_init makes (fill of the whole ring): a whole-array assignment instead of
- * 16384 single stores.  Any other call shape fails the CHECK.  The byte-wise semantics of that call on the real
- * memset is checked by harness_init. */
-static void *verif_memset(void *d, int c, size_t n);
-#define memset verif_memset
-#endif
 #include "lib/lh5_decoder.c"
-#undef memset
 
 #ifndef NLIT
 #define NLIT 2
@@ -56,18 +50,6 @@ static void *verif_memset(void *d, int c, size_t n);
 #define TOTAL (NLIT + NCOPY * LENMAX)
 
 static LHANewDecoder dec;
-#ifdef MEMSET_MODEL
-static void *verif_memset(void *d, int c, size_t n)
-{
-	CHECK(d == (void *) dec.ringbuf && n == sizeof(dec.ringbuf), "harness: memset model covers exactly 'fill the whole ring'");
-#ifdef __CPROVER__
-	__CPROVER_array_set(dec.ringbuf, (uint8_t) c);
-#else
-	{ size_t i; for (i = 0; i < n; ++i) ((uint8_t *) d)[i] = (uint8_t) c; }
-#endif
-	return d;
-}
-#endif
 static unsigned wp;
 static void put(unsigned v, unsigned n)
 {
